@@ -202,6 +202,15 @@ def check_life(pid, tier, seed):
             json.dump({"property": pid, "kind": "e2e", "what": text, "record": rec}, open(pth, "w"))
             print(f"VIOLATION property={pid} replay={pth}")
         e2e_viol = est["violations"]
+    if "e2e_lostreply" in spec.get("extra", []):
+        from . import e2e
+        est = e2e.lostreply_check(seed, tier, wd)
+        os.makedirs(REPLAYS, exist_ok=True)
+        for n, (runno, text, rec) in enumerate(est["violations"][:2]):
+            pth = f"{REPLAYS}/{pid}_e2e{n}.json"
+            json.dump({"property": pid, "kind": "e2e", "what": text, "record": rec}, open(pth, "w"))
+            print(f"VIOLATION property={pid} replay={pth}")
+        e2e_viol = est["violations"]
     if "e2e_codes" in spec.get("extra", []):
         from . import e2e
         est = e2e.codes_check(seed, tier, wd)
